@@ -79,9 +79,9 @@ SPECS = {
     "C02": spec("C02", "Adders never lose, duplicate or tear an update", "adder", adder.gen_c02, AMODEL,
                 relevant=r"exact total|lost|did not complete"),
     "C09": spec("C09", "A concurrent Sum sees every finished update and only whole updates", "adder", adder.gen_c09, AMODEL,
-                relevant=r"not the total of any set|non-integral|did not complete"),
+                relevant=r"not the total of any set|non-integral|exact total|not linearizable|did not complete"),
     "C16": spec("C16", "All adder variants agree with a plain number for Store/Reset/SumAndReset", "adder", adder.gen_c16, AMODEL,
-                relevant=r"single number|did not complete"),
+                relevant=r"single number|SumAndReset results|did not complete"),
     "C19": dict(title="The mutex-based queue and adder are linearizable over their whole API",
                 corr=conc.merge_corr([conc.make_corr("C19", "queue", queue.gen_c19_queue, r"not linearizable|left the queue|lost|did not complete|quiescent"),
                                       conc.make_corr("C19", "adder", adder.gen_c19_adder, r"not linearizable|SumAndReset results|single number|did not complete")]),
@@ -92,9 +92,9 @@ SPECS = {
     "C03": spec("C03", "Breaker fails fast while open and admits exactly one trial at a time", "breaker", breaker.gen_c03, BMODEL, trusted=BTRUST,
                 relevant=r"admitted|rejections|transitions|final circuit state|did not complete"),
     "C06": spec("C06", "Breaker follows the documented state machine for every call sequence", "breaker", breaker.gen_c06, BMODEL, trusted=BTRUST,
-                relevant=r"state machine|did not complete"),
+                relevant=r"state machine|sequential script|did not complete"),
     "C10": spec("C10", "Sliding-window counter neither invents, double-counts nor loses events", "breaker", breaker.gen_c10, BMODEL, trusted=BTRUST,
-                relevant=r"window|did not complete"),
+                relevant=r"window|next roll reported|did not complete"),
     "C04": spec("C04", "Every accepted task runs exactly once and yields exactly one result", "pool", pool.gen_c04, PMODEL, trusted=PTRUST,
                 relevant=r"executed \d+ times|delivered|refused|with context|lost|without having been executed|accepted by a running pool|panicked|hangs|did not complete"),
     "C08": spec("C08", "Stop drains accepted work and leaves no goroutine behind", "pool", pool.gen_c08, PMODEL, trusted=PTRUST,
@@ -102,7 +102,7 @@ SPECS = {
     "C11": spec("C11", "Pool parallelism is capped, reaches its cap, and expansion is temporary", "pool", pool.gen_c11, PMODEL, trusted=PTRUST,
                 relevant=r"simultaneously|expand to exactly|expanded-worker counter|requires|hangs|did not complete"),
     "C12": spec("C12", "Submitting around Start/Stop never panics and never strands a task", "pool", pool.gen_c12, PMODEL, trusted=PTRUST,
-                relevant=r"panicked|hangs|never released|lost|did not complete"),
+                relevant=r"panicked|hangs|never released|lost|delivered|executed \d+ times|without having been executed|did not complete"),
     "C17": spec("C17", "TryDo never blocks; Do applies backpressure and yields to cancellation", "pool", pool.gen_c17, PMODEL, trusted=PTRUST,
                 relevant=r"requires|waiting|hangs|panicked|did not complete"),
 }
